@@ -2,6 +2,7 @@ package rules
 
 import (
 	"fmt"
+	"go/ast"
 
 	"bebopverif/internal/core"
 	"bebopverif/internal/geneval"
@@ -218,6 +219,20 @@ func checkC08(c *core.Ctx) {
 			if n == 0 {
 				c.Check("R3", m+" returns the latch on every path "+bodyKeyAll(rf), anchorPos(gr.p, rf.Spec.Kind, m), len(mf.Returns) > 0, "no return statement found — "+rf.where(mf.Decl.Pos()))
 			}
+			// R7: only iohelp's Read/Write latch; emitted code never overwrites or clears it
+			latch := map[string]string{mSW: "w.Err", mSR: "r.Err"}[m]
+			ast.Inspect(mf.Decl.Body, func(nd ast.Node) bool {
+				if as, ok := nd.(*ast.AssignStmt); ok {
+					for _, l := range as.Lhs {
+						if wire.Canon(l) == latch {
+							c.Check("R7", m+" never assigns the error latch "+kindName(rf.Spec.Kind), anchorPos(gr.p, rf.Spec.Kind, m), false,
+								"emitted code assigns "+latch+": an error recorded by an earlier read/write can be overwritten or cleared — "+rf.where(as.Pos()))
+						}
+					}
+				}
+				return true
+			})
+			c.Check("R7", m+" never assigns the error latch "+kindName(rf.Spec.Kind), anchorPos(gr.p, rf.Spec.Kind, m), true, "")
 		}
 	}
 	gr.sample(2)
